@@ -16,6 +16,7 @@ func init() {
 		ruleS17_1(c, "C17.S1")
 		ruleS17_2(c, "C17.S2")
 		ruleS17_3(c, "C17.S3")
+		ruleS17_4(c, "C17.S4")
 		ruleV1x(c, "C17.V1", []string{"simple.MakeFh"}, 1)
 		ruleV5(c, "C17.V5")
 	}
@@ -518,4 +519,82 @@ func ruleS17_3(c *Ctx, id string) {
 
 func constIntDeep(v ssa.Value) (int64, bool) {
 	return constInt(stripConv(v))
+}
+
+// ruleS17_4: SimpleNFS never clears a block when a file shrinks, so the only
+// thing that keeps cut-off bytes from coming back is that a file grows only by
+// writing data over the new range; and the one-block-per-inode initialisation,
+// which runs at every start of the server, must keep what the inodes hold.
+func ruleS17_4(c *Ctx, id string) {
+	P, R := c.P, c.R
+	R.Rule(id, "sizes change only in ways that keep the bytes right: Inode.Size grows only in Inode.Write (after the copy) and in Decode; every other store to Size is dominated by 'new size <= current size'; inodeInit (run at every start) rewrites an inode it has read and changes only its data-block pointer", 3)
+	ino := P.Named("simple", "Inode")
+	w := c.fn(id, "simple.(*Inode).Write")
+	dec := c.fn(id, "simple.Decode")
+	read := c.fn(id, "simple.ReadInode")
+	init := c.fn(id, "simple.inodeInit")
+	wi := c.fn(id, "simple.(*Inode).WriteInode")
+	if ino == nil || w == nil || dec == nil || read == nil || init == nil || wi == nil {
+		return
+	}
+	for _, fn := range P.RepoFuncs("simple") {
+		for _, fw := range FieldWrites(fn) {
+			if fw.Type != ino || fw.Field != "Size" {
+				continue
+			}
+			R.Analysed[FuncName(fn)] = true
+			if fn == w || fn == dec {
+				R.Pass(id, FuncName(fn)+"|writes Size", P.Pos(fw.Instr.Pos()), "growth through the data path / decoding", "Write and Decode")
+				continue
+			}
+			val, base := stripConv(fw.Val), stripConv(fw.Base)
+			g := guardedBy(fn, fw.Instr.Block(), func(cd Cond) (bool, bool) {
+				op, a, b := cd.Op, cd.X, cd.Y
+				if a == nil || b == nil {
+					return false, false
+				}
+				isCur := func(v ssa.Value) bool {
+					n, fl, bs, _ := loadedField(v)
+					return n == ino && fl == "Size" && bs == base
+				}
+				if isCur(b) && stripConv(a) == val {
+					op, a, b = flipOp(op), b, a
+				}
+				if !isCur(a) || stripConv(b) != val {
+					return false, false
+				}
+				// normalised: Size op newsize
+				switch op {
+				case token.LSS: // Size < new  -> the shrink side is the false edge
+					return true, false
+				case token.GEQ:
+					return true, true
+				}
+				return false, false
+			})
+			R.Check(g, id, FuncName(fn)+"|Size only lowered outside the data path", P.Pos(fw.Instr.Pos()), "a store to Size outside Inode.Write is dominated by new size <= current size", "guarded", "the file can grow without its new range being written: bytes cut off by an earlier shrink (never cleared) read back instead of zeros")
+		}
+	}
+	// inodeInit
+	R.Analysed[FuncName(init)] = true
+	okRead, n := true, 0
+	for _, call := range P.CallsIn(init, funcIs(wi)) {
+		n++
+		from := false
+		for v := range bwdSources(recvOf(call)) {
+			if cl, ok := v.(*ssa.Call); ok && cl.Call.StaticCallee() == read {
+				from = true
+			}
+		}
+		if !from {
+			okRead = false
+		}
+	}
+	onlyData := true
+	for _, fw := range FieldWrites(init) {
+		if fw.Type == ino && fw.Field != "Data" {
+			onlyData = false
+		}
+	}
+	R.Check(okRead && onlyData && n > 0, id, "simple.inodeInit|keeps what the inodes hold", P.Pos(init.Pos()), "inodeInit writes back inodes obtained from ReadInode and stores only their Data field", fmt.Sprintf("%d WriteInode calls on inodes that were read; only Data assigned", n), "MakeNfs runs inodeInit on every start: building the inodes afresh resets every file's size, acknowledged writes do not survive a restart")
 }
